@@ -429,7 +429,7 @@ def exhaustive_pairs(max_bound=3):
 
 
 def exhaustive_recipes(tier):
-    stride = 1 if tier == "thorough" else 29
+    stride = 1 if tier == "thorough" else 47
     elts = ["i8", "i16", "i32", "i64"]
     for i, (tb, s, d) in enumerate(exhaustive_pairs()):
         if i % stride:
